@@ -214,6 +214,24 @@ func runC19(c *Ctx) {
 	}
 	c.Floor("C19.W2-constructors-commit-nothing", 2)
 
+	// ---- W8 the writer decodes the key the way the client encodes it: the client sends base58, so base58 is tried
+	// first and any other decoding only on its failure edge (a key string can be valid in two encodings)
+	if nw := c.Func(rw, "New"); nw != nil {
+		b58 := c.CallsInl(nw.SSA, Or(Call("base58.Decode"), Call("go-multihash.FromB58String")), 2)
+		others := c.CallsInl(nw.SSA, Or(Call("encoding/hex.DecodeString"), Call("go-multihash.FromHexString")), 2)
+		okOrder := len(b58) == 1
+		if okOrder {
+			berr := c.Result(b58[0].CallSite, 1)
+			for _, o := range others {
+				if _, g := c.GuardedSite(o, EqNil(Is(berr)), false); !g {
+					okOrder = false
+				}
+			}
+		}
+		c.Check(okOrder, "C19.W8-key-decoded-as-sent", nw.Name+" › base58 first", nw.SSA.Pos(), "the multihash key is decoded as base58; other encodings only when that fails", "the key is not decoded as base58 first (other encodings are tried before it, or unconditionally): a key the client sent in base58 that also parses in the other encoding is taken for another multihash and answered 400")
+	}
+	c.Floor("C19.W8-key-decoded-as-sent", 1)
+
 	// ---- W4/W5 client ------------------------------------------------------------------------------
 	find := c.Func("find/client", "Client.Find")
 	if find == nil {
